@@ -667,8 +667,15 @@ impl<'a> ProgGen<'a> {
             }
         } else {
             self.feat("sub-call");
+            // both spellings of a SUB call: `Name a, b` and `CALL Name(a, b)`
+            let call_kw = self.rng.chance(1, 4);
+            if call_kw {
+                self.feat("sub-call-with-CALL");
+            }
             if args.is_empty() {
-                self.emit(out, info.name.clone());
+                self.emit(out, if call_kw { format!("CALL {}", info.name) } else { info.name.clone() });
+            } else if call_kw {
+                self.emit(out, format!("CALL {}({})", info.name, args.join(", ")));
             } else {
                 self.emit(out, format!("{} {}", info.name, args.join(", ")));
             }
